@@ -1137,11 +1137,11 @@ _first_bounded = {
 for _p in ("C02", "C04", "C06"):
     PROPS[_p]["govc"] = PROPS[_p]["govc"] + [dict(_first_govc, prop=_p)]
     PROPS[_p]["bounded"] = PROPS[_p].get("bounded", []) + [dict(_first_bounded)]
-    PROPS[_p]["explanation"] += " Generator side, proved for all FIRST tables and symbol strings: FirstS is the union of FIRST of the symbols up to and including the first non-nullable one and contains the marker 'empty' exactly when every symbol is nullable (First, SymbolSet.AddSet, FirstSets.GetSet under contract); GetFirstSets returns sets that are closed under the three rules of its iteration (the loop stops only when no production can add anything: invariant 'a change was recorded or every production seen so far is closed', AddToken/AddSet report exactly whether they changed anything); ItemSet.Closure returns a set that contains its argument and is closed under the LR(1) closure rule (for every item [A -> x . B y, a], production B -> z and terminal b in FIRST(y a), the item [B -> . z, b] is present; AddItem, first1, Contain, NewItemSet under contract, NewItem trusted for its rendered key), Goto returns the closed set that holds every item with the dot moved over X; GetItemSets returns an automaton whose states are all closed and in which every state has, for every symbol over which one of its items can move the dot, a transition to a state holding all those moved items (state identification by ItemSet.Equal, with the pigeonhole principle for finite sets as a trusted schema). That nothing unjustified is ever added (least fixed points) and the rendering of the automaton into tables are decided by the bounded SYN sweep only."
+    PROPS[_p]["explanation"] += " Generator side, proved for all FIRST tables and symbol strings: FirstS is the union of FIRST of the symbols up to and including the first non-nullable one and contains the marker 'empty' exactly when every symbol is nullable (First, SymbolSet.AddSet, FirstSets.GetSet under contract); GetFirstSets returns sets that are closed under the three rules of its iteration (the loop stops only when no production can add anything: invariant 'a change was recorded or every production seen so far is closed', AddToken/AddSet report exactly whether they changed anything); ItemSet.Closure returns a set that contains its argument and is closed under the LR(1) closure rule (for every item [A -> x . B y, a], production B -> z and terminal b in FIRST(y a), the item [B -> . z, b] is present; AddItem, first1, Contain, NewItemSet under contract, NewItem trusted for its rendered key), Goto returns the closed set that holds every item with the dot moved over X; GetItemSets returns an automaton whose states are all closed and in which every state has, for every symbol over which one of its items can move the dot, a transition to a state holding all those moved items (state identification by ItemSet.Equal, with the pigeonhole principle for finite sets as a trusted schema). The goto table builders (getGotoRowData, getGotoTableData) hand the template, for every state and nonterminal in numbering order, exactly the automaton's transition (-1 where there is none). That nothing unjustified is ever added (least fixed points), the action rows' texts and the template rendering are decided by the bounded SYN sweep only."
 
 
 # generator side of C02: the LR(1) closure and goto (contracts in lr1/items)
-PROPS["C02"]["govc"] = PROPS["C02"]["govc"] + gen_govc("C02")[:1]
+PROPS["C02"]["govc"] = PROPS["C02"]["govc"] + gen_govc("C02")[:1] + gen_govc("C02")[2:3]
 
 
 def c10_numbering(run):
